@@ -1,5 +1,7 @@
 import ShpanVerif.Drive.PipeCommon
 import ShpanVerif.Spec.PipeDemand
+import ShpanVerif.Drive.C05Async
+import ShpanVerif.Drive.C05Query
 /-
 Driver handler for C05 (sequential part): laziness and bounded pulling.
 Spec predicate on the observation: nothing happens before the terminal (pre = 0), and for every probe source
@@ -28,6 +30,10 @@ def specRun (p : Pipe) (r : Run) (o : ObsRun) : Bool × String :=
   | _, _ => (true, "")
 
 def handle (c obs : String) : String × Bool × String :=
+  -- "A ..." cases: run-ahead of the asynchronous stages (Buffered / concurrent map), concurrency family
+  if c.startsWith "A " then ShpanVerif.Drive.C05Async.handle c obs else
+  -- "Q ..." cases: tsquery planning (Execute/Filter) must not touch any source, query family
+  if c.startsWith "Q " then ShpanVerif.Drive.C05Query.handle c obs else
   match parseCase c with
   | none => ("bad-case", false, "unparsable case")
   | some (p, rs) =>
